@@ -8,3 +8,7 @@ import "github.com/libp2p/go-libp2p/p2p/http/auth/internal/handshake"
 // verification harness: its Reset() re-use contract is not reachable through ServeHTTP,
 // which builds a fresh value per request.
 type VerifHandshakeServer = handshake.PeerIDAuthHandshakeServer
+
+// VerifHandshakeClient re-exports the client side of the handshake state machine (its PeerID()
+// accessor is only reachable through a completed AuthenticateWithRoundTripper otherwise).
+type VerifHandshakeClient = handshake.PeerIDAuthHandshakeClient
